@@ -820,7 +820,7 @@ func checkBatch(c *Case, v *Verdict) {
 				return
 			}
 		}
-		if len(out.Remainder) == 0 && len(out.Fallbacks) == 0 && dev.Delivered == 0 {
+		if len(out.Remainder) == 0 && len(out.Fallbacks) == 0 && dev.Delivered == 0 && !op.NilRd {
 			v.fail("c17-no-entropy-drawn", "randomisers drawn from the entropy source", act,
 				"an all-valid %d-entry batch was accepted without a single byte of entropy being read: the randomised batch equation cannot have been evaluated", n)
 			return
